@@ -278,6 +278,55 @@ func runC13(c *core.Ctx) {
 			c.Violation("csv log|date-depends-on-time-zone", fmt.Sprintf("TZ=%s: %s", zc.zone, bad), caseDoc{Files: files, Args: args, Env: map[string]string{"TZ": zc.zone}, Observed: resDoc(res)})
 		}
 	}
+	// a recipe reached at depth 10..14 and, next to it, a shallow recipe whose name is that recipe's name with the
+	// last digit of the depth in front ("x" at level 10 and "0x" at level 1: level and name written next to each
+	// other read the same). Resolved under a raised limit, many times (the visiting order of the book varies): the
+	// export is the resolved book, row for row
+	{
+		srv := pool.Servers[0]
+		for _, depth := range []int{10, 11, 12, 14} {
+			twin := fmt.Sprint(depth)[1:] + "x"
+			x := func(n string, k int) gen.Ent { return gen.Ent{Name: n, Val: gen.Half(2 * k)} }
+			book := gen.Book{{Name: "base", Ents: []gen.Ent{x("kcal", 5)}}, {Name: "x", Ents: []gen.Ent{x("base", 3)}}, {Name: twin, Ents: []gen.Ent{x("base", 2)}}}
+			for k := depth - 1; k >= 1; k-- {
+				next := fmt.Sprintf("s%d", k+1)
+				if k == depth-1 {
+					next = "x"
+				}
+				book = append(book, gen.Recipe{Name: fmt.Sprintf("s%d", k), Ents: []gen.Ent{x(next, 1)}})
+			}
+			book = append(book, gen.Recipe{Name: "menu", Ents: []gen.Ent{x("s1", 1), x(twin, 2)}})
+			res := model.Resolve(book)
+			var want []string
+			for _, name := range sortedKeys(res) {
+				for _, e := range res[name] {
+					want = append(want, fmt.Sprintf("%s,%s,%s", name, e.Name, e.V.FloatString(2)))
+				}
+			}
+			files := map[string]string{"food.yaml": gen.RenderBook(book, nil)}
+			srv.Write(files)
+			args := []string{"--maxdepth", "20", "-d", "food.yaml", "csv", "database-resolved"}
+			outcomes := map[string]int{}
+			for _, v := range srv.App(args, nil, 80) {
+				outcomes[fmt.Sprintf("exit=%d\n%s", v.Exit, v.Out)] += v.Count
+			}
+			for k := 0; k < 8; k++ {
+				v := run.Exec(c.HR, args, run.ExecOpts{Dir: srv.Dir})
+				outcomes[fmt.Sprintf("exit=%d\n%s", v.Exit, v.Out)]++
+			}
+			c.Eval(88)
+			c.Count("deep_books_with_a_digit_prefixed_twin", 1)
+			c.Nontrivial("digit-twin", fmt.Sprint(depth))
+			wantOut := "exit=0\n" + strings.Join(want, "\n") + "\n"
+			for got, cnt := range outcomes {
+				if got != wantOut {
+					c.Violation("csv database-resolved|rows", fmt.Sprintf("book with recipe \"x\" at depth %d and recipe %q at depth 1, --maxdepth 20: %d of 88 runs give another export than the resolved book", depth, twin, cnt),
+						caseDoc{Files: files, Args: args, Expected: wantOut, Observed: clip(got, 1500)})
+					break
+				}
+			}
+		}
+	}
 	// headings written with a zone offset: the date of a row is the calendar date of its own heading as written,
 	// also when the previous heading denotes the very same instant under another offset, is repeated, or is a
 	// neighbouring instant
